@@ -14,6 +14,8 @@ RULE = ("C05's datagram histories plus 0..3 probe RecordUpdateListeners that are
         "non-suppressed, valid response datagram the (new, previous) pairs, their order, exactly-once delivery and the "
         "cache state visible in each callback are compared with ModelCache (TTL floor, arrival time as creation time, "
         "flush marks at >1000 ms only). Non-trivial = at least two non-suppressed response datagrams.")
+DISTINCT_RULE = ("Distinct = distinct digests of the full event log (datagram contents, delivery instants, callbacks) "
+                 "among non-trivial runs: the property quantifies over histories.")
 ASSUMPTIONS = [
     "duplicate-datagram suppression (identical bytes within 1 s on one socket) is modelled as the statement of C16 has it",
     "a record that is new to the cache and listed twice with different TTLs may end up with either TTL",
@@ -28,7 +30,7 @@ def generate(rng, tier):
             "flush_p": rng.choice([0.0, 0.3, 0.6]), "ptr_flush_p": rng.choice([0.0, 0.1]),
             "repeat_p": rng.choice([0.0, 0.3, 0.6]),
             "ttls": rng.choice([cl.TTLS, [0, 1, 2, 120], [0, 60, 120, 4500], [1, 2, 1124, 1125], [0, 20, 120]])}
-    n = rng.choice([2, 3, 4, 5, 6, 8, 10])
+    n = rng.choice([2, 3, 4, 5, 6, 8, 10] + ([16, 24, 40] if tier == "thorough" else []))
     ops = []
     t = 0.01
     last_ttls = []
